@@ -76,6 +76,7 @@ type FnGen struct {
 	debugNames map[string][]debugBinding
 	rangeIters map[ssa.Value]*rangeIter
 	localAllocs []Term
+	curInstrIdx int
 	privateRefs map[string]string // ref term -> private component prefix (locals captured only by local closures)
 	privateOf   map[*ssa.Alloc]bool
 }
@@ -813,9 +814,15 @@ func (fg *FnGen) rpo() []*ssa.BasicBlock {
 // main driver for one function
 
 func (fg *FnGen) generate() (err error) {
+	// per-function registries: the queries of a function must not depend on which other functions were
+	// processed before it (reproducibility; solver behaviour is sensitive to constant numbering)
+	fg.g.typeIDs = map[string]int{}
+	fg.g.strLits = map[string]int{}
 	fg.findLoops()
 	fg.collectDebugNames()
 	for pass := 1; pass <= 2; pass++ {
+		fg.g.typeIDs = map[string]int{}
+		fg.g.strLits = map[string]int{}
 		fg.reset(pass)
 		if e := fg.run(); e != nil {
 			return e
@@ -1009,10 +1016,11 @@ func (fg *FnGen) block(b *ssa.BasicBlock) {
 			}
 		}
 	}
-	for _, ins := range b.Instrs {
+	for i, ins := range b.Instrs {
 		if _, ok := ins.(*ssa.Phi); ok {
 			continue
 		}
+		fg.curInstrIdx = i
 		fg.instr(ins)
 	}
 	fg.endState[b.Index] = fg.cur
